@@ -31,6 +31,7 @@ def seasons : List Str := [[83, 80], [83, 85], [70, 65], [87, 73]]
 def partsOfDay : List Str := [[68, 84], [78, 73], [77, 79], [65, 70], [69, 86]]
 def xxxx : List Item := [.lit 88, .lit 88, .lit 88, .lit 88]
 
+-- no correspondence: stdDate stdTime stdPeriod: constants (the configuration the theorems were written for); theorem genCfg_ok (Props/C14, `decide`, re-checked every run) equates them with the lists regenerated from the working tree (RTV/Gen/TimexRegex), and the driver evaluates genCfg
 /-- `TimexRegex.timexRegex['date']` as the theorems expect it -/
 def stdDate : List (List Item) := [
   [.digits .year 4, .lit 45, .digits .month 2, .lit 45, .digits .dayOfMonth 2],
